@@ -228,10 +228,10 @@ class Ctx:
         missing = [t for t in thms if t not in printed]
         if missing:
             report["errors"].append("no Print Assumptions for: " + ", ".join(missing))
-        bad = scan_forbidden()
+        ok, out = self.coq_make(["Properties/%s.vo" % self.prop], timeout=timeout)
+        bad = scan_forbidden(self.closure())
         if bad:
             report["errors"].append("forbidden tokens: " + "; ".join("%s:%d %s" % b for b in bad[:10]))
-        ok, out = self.coq_make(["Properties/%s.vo" % self.prop], timeout=timeout)
         if not ok:
             report["errors"].append("coq build failed")
             report["build_log_tail"] = out[-6000:]
@@ -272,6 +272,28 @@ class Ctx:
         self.cov["axioms_used"] = sorted(used_axioms)
         self.proof_report = report
         return (not report["errors"]) and discharged == len(thms), report
+
+    def closure(self):
+        """.v files (relative to coq/) in the dependency closure of Properties/<prop>.v."""
+        deps = {}
+        md = COQ / ".Makefile.d"
+        if md.exists():
+            for line in md.read_text().split("\n"):
+                if ":" not in line:
+                    continue
+                lhs, rhs = line.split(":", 1)
+                tg = [t for t in lhs.split() if t.endswith(".vo")]
+                for t in tg:
+                    deps.setdefault(t, set()).update(x for x in rhs.split() if x.endswith(".vo") and not x.startswith("/"))
+        seen, todo = set(), ["Properties/%s.vo" % self.prop]
+        while todo:
+            t = todo.pop()
+            if t in seen:
+                continue
+            seen.add(t)
+            todo.extend(deps.get(t, ()))
+        files = sorted(t[:-1] for t in seen if (COQ / t[:-1]).exists())
+        return files or None
 
     @staticmethod
     def _parse_assumptions(out):
@@ -365,9 +387,9 @@ class Ctx:
     # ---------------------------------------------------- findings/violations
     def known_findings(self):
         if self._kf is None:
-            p = VERIF / "known_findings.json"
+            p = VERIF / "props" / self.prop / "known_findings.json"
             self._kf = json.loads(p.read_text()) if p.exists() else []
-        return [k for k in self._kf if k.get("property") == self.prop]
+        return [k for k in self._kf if k.get("property", self.prop) == self.prop]
 
     def finding(self, key, what, replay):
         """A concrete failure of the property on the implementation.  Listed+open in
